@@ -9,6 +9,7 @@ import (
 
 	"pgregory.net/rapid"
 
+	"github.com/free5gc/chf/cdr/asn"
 	"github.com/free5gc/chf/cdr/cdrConvert"
 	"github.com/free5gc/chf/cdr/cdrType"
 	"github.com/free5gc/chf/verifapi"
@@ -276,7 +277,7 @@ func zoneClass(tz int) string {
 }
 
 // checkFile is the C03 oracle over /tmp/<supi>.cdr.
-func checkFile(st *subState, v *h.Verdict, step int, op Op, wantRecords int) bool {
+func checkFile(st *subState, v *h.Verdict, step int, op Op, wantRecords int, reqBytes int) bool {
 	d, err := os.ReadFile("/tmp/" + st.supi + ".cdr")
 	if err != nil {
 		v.Failf("file-missing", "step %d (%s): %v", step, op.K, err)
@@ -298,7 +299,8 @@ func checkFile(st *subState, v *h.Verdict, step int, op Op, wantRecords int) boo
 			n += len(u.Conts) + u.Jumbo
 		}
 		cls := op.K
-		if n >= 2500 {
+		if reqBytes >= 65535-600 {
+			// the usage of this one request alone does not fit a record (600 octets allowed for the record's own fields)
 			cls += "/single-request>64KiB"
 		}
 		v.Failf("record-overflow/"+cls, "step %d (%s carrying %d containers): header and %d records account for %d of %d octets (a record exceeds the 65535-octet limit of its length field)", step, op.K, n, f.NCdr, f.Consumed, len(d))
@@ -389,11 +391,11 @@ func judgeRecords(prop string) func(Hist) *h.Verdict {
 				switch op.K {
 				case "update":
 					snap := verifapi.Snapshot(st.supi)
-					if !checkFile(st, v, step, op, snap.NRecords) {
+					if !checkFile(st, v, step, op, snap.NRecords, usageBytes(res)) {
 						return v
 					}
 				case "release":
-					if !checkFile(st, v, step, op, 1) {
+					if !checkFile(st, v, step, op, 1, usageBytes(res)) {
 						return v
 					}
 				}
@@ -411,3 +413,17 @@ func genRecHist(t *rapid.T) Hist {
 
 func TestC02Records(t *testing.T) { h.Run(t, "C02", "records", genRecHist, judgeRecords("C02")) }
 func TestC03Files(t *testing.T)   { h.Run(t, "C03", "files", genRecHist, judgeRecords("C03")) }
+
+// usageBytes: encoded size of the usage containers of one request (the same
+// conversion and encoder the product applies; the encoder is judged by C04).
+func usageBytes(res *Result) int {
+	if res == nil || res.Req == nil || len(res.Req.MultipleUnitUsage) == 0 {
+		return 0
+	}
+	mu := cdrConvert.MultiUnitUsageToCdr(res.Req.MultipleUnitUsage)
+	b, err := asn.BerMarshalWithParams(&mu, "explicit,choice")
+	if err != nil {
+		return 0
+	}
+	return len(b)
+}
